@@ -91,6 +91,7 @@ def run(prog):
         obs.extend(check_walker(prog, wname, corecall, positives))
     obs.extend(check_cores(prog))
     obs.extend(check_constructors(prog))
+    obs.extend(check_super_assertions(prog))
     obs.extend(check_wiring(prog))
     floors = [Floor(RULE, "walkers", len(WALKERS), 3), Floor(RULE, "obligations", len(obs), 20)]
     return obs, floors, {"walkers": [w[0] for w in WALKERS]}
@@ -235,6 +236,25 @@ def check_cores(prog):
     if n < 3:
         obs.append(bad(RULE, "cores:count", "", "expected 3 ObjectCore::get_for_core impls, found %d" % n))
     return obs
+
+
+def check_super_assertions(prog):
+    """an object built on top of another one inherits its obligation to run assertions: ObjValueBuilder::with_super ORs the super
+    object's has_assertions into its own (extend_from is covered by the constructor check below)"""
+    f = prog.fn(OBJ + "oop::ObjValueBuilder::with_super")
+    key = "with_super:has_assertions"
+    if f is None:
+        return [bad(RULE, key, "", "ObjValueBuilder::with_super not found")]
+    good = False
+    for b in sorted(f.live_blocks):
+        for s in f.stmts(b):
+            if s[0] == "a" and len(s[1]) > 1 and str(s[1][-1]).endswith(":has_assertions"):
+                d = strip(f.desc_rvalue(s[2]))
+                if contains(d, lambda x: x[0] == "field" and x[2] == "has_assertions" and contains(x[1], lambda y: y[0] == "param" and y[1] == 2)):
+                    good = True
+    return [ok(RULE, key, site(f), "has_assertions |= super.has_assertions") if good else
+            bad(RULE, key, site(f), "with_super does not take over the super object's has_assertions: assertions of lower layers are never run for objects "
+                "built through the builder (`a { .. }`, std.objectRemoveKey), while `a + b` still runs them")]
 
 
 def check_constructors(prog):
